@@ -13,52 +13,48 @@ open XlModel.Facts.C08 XlModel.Calc NumOps
 variable {N : Type} [NumOps N]
 
 /-- what calcL / calcLe / calcG / calcGe do on two non-error operands -/
-def ordRes (nn : N → N → Bool) (ss : Ordering → Bool) (ns sn : Bool) (l' r' : Arg N) :
-    Except MErr (Arg N) :=
-  match l', r' with
-  | .num x _, .num y _ => .ok (mkBool (nn x y))
-  | .str s, .str t => .ok (mkBool (ss (cmpStr s t)))
-  | .str _, .num _ _ => .ok (mkBool sn)
-  | .num _ _, .str _ => .ok (mkBool ns)
-  | _, _ => .error .panic
+def ordRes (f : Ordering → Bool) (l' r' : Arg N) : Except MErr (Arg N) :=
+  match calcCompare l' r' with
+  | some o => .ok (mkBool (f o))
+  | none => .error .panic
 
 theorem applyBin_lt_shape (l r : Arg N) (hl : ∀ m, blank0 l ≠ .err m) (hr : ∀ m, blank0 r ≠ .err m) :
-    applyBin .lt l r = ordRes lt (· == .lt) true false (blank0 l) (blank0 r) := by
+    applyBin .lt l r = ordRes (· == .lt) (blank0 l) (blank0 r) := by
   simp only [applyBin]
   generalize blank0 l = l' at hl ⊢
   generalize blank0 r = r' at hr ⊢
-  cases l' <;> cases r' <;> simp_all [ordRes]
+  cases l' <;> cases r' <;> simp_all [ordRes, calcCompare]
 
 theorem applyBin_le_shape (l r : Arg N) (hl : ∀ m, blank0 l ≠ .err m) (hr : ∀ m, blank0 r ≠ .err m) :
-    applyBin .le l r = ordRes le (· != .gt) true false (blank0 l) (blank0 r) := by
+    applyBin .le l r = ordRes (· != .gt) (blank0 l) (blank0 r) := by
   simp only [applyBin]
   generalize blank0 l = l' at hl ⊢
   generalize blank0 r = r' at hr ⊢
-  cases l' <;> cases r' <;> simp_all [ordRes]
+  cases l' <;> cases r' <;> simp_all [ordRes, calcCompare]
 
 theorem applyBin_gt_shape (l r : Arg N) (hl : ∀ m, blank0 l ≠ .err m) (hr : ∀ m, blank0 r ≠ .err m) :
-    applyBin .gt l r = ordRes (fun x y => lt y x) (· == .gt) false true (blank0 l) (blank0 r) := by
+    applyBin .gt l r = ordRes (· == .gt) (blank0 l) (blank0 r) := by
   simp only [applyBin]
   generalize blank0 l = l' at hl ⊢
   generalize blank0 r = r' at hr ⊢
-  cases l' <;> cases r' <;> simp_all [ordRes]
+  cases l' <;> cases r' <;> simp_all [ordRes, calcCompare]
 
 theorem applyBin_ge_shape (l r : Arg N) (hl : ∀ m, blank0 l ≠ .err m) (hr : ∀ m, blank0 r ≠ .err m) :
-    applyBin .ge l r = ordRes (fun x y => le y x) (· != .lt) false true (blank0 l) (blank0 r) := by
+    applyBin .ge l r = ordRes (· != .lt) (blank0 l) (blank0 r) := by
   simp only [applyBin]
   generalize blank0 l = l' at hl ⊢
   generalize blank0 r = r' at hr ⊢
-  cases l' <;> cases r' <;> simp_all [ordRes]
+  cases l' <;> cases r' <;> simp_all [ordRes, calcCompare]
 
 theorem applyBin_eq_shape (l r : Arg N) (hl : ∀ m, blank0 l ≠ .err m) (hr : ∀ m, blank0 r ≠ .err m) :
-    applyBin .eq l r = .ok (mkBool (decide (value (blank0 r) = value (blank0 l)))) := by
+    applyBin .eq l r = .ok (mkBool (calcEqual (blank0 r) (blank0 l))) := by
   simp only [applyBin]
   generalize blank0 l = l' at hl ⊢
   generalize blank0 r = r' at hr ⊢
   cases l' <;> cases r' <;> simp_all
 
 theorem applyBin_ne_shape (l r : Arg N) (hl : ∀ m, blank0 l ≠ .err m) (hr : ∀ m, blank0 r ≠ .err m) :
-    applyBin .ne l r = .ok (mkBool (decide (value (blank0 r) ≠ value (blank0 l)))) := by
+    applyBin .ne l r = .ok (mkBool (!calcEqual (blank0 r) (blank0 l))) := by
   simp only [applyBin]
   generalize blank0 l = l' at hl ⊢
   generalize blank0 r = r' at hr ⊢
